@@ -30,8 +30,25 @@ def stamp(t):
 
 
 class TaskSpec:
-    def __init__(self, uid, occ, max_simul=None, dur=0, owner=None, use_rdate=False):
+    def __init__(self, uid, occ, max_simul=None, dur=0, owner=None, use_rdate=False, dur_form=None):
         self.uid, self.occ, self.max_simul, self.dur, self.owner, self.use_rdate = uid, occ, max_simul, dur, owner, use_rdate
+        self.dur_form = dur_form      # how the limit is spelled: None = PTnS, "iso" = mixed W/D/H/M/S, "dtend" = DTEND
+
+    def dur_lines(self):
+        s = self.dur // 1000
+        if self.dur_form == "dtend":
+            return ["DTEND:%s" % stamp(self.occ[0] + s)]
+        if self.dur_form == "iso":
+            w, r = divmod(s, 604800)
+            d, r = divmod(r, 86400)
+            h, r = divmod(r, 3600)
+            m, sec = divmod(r, 60)
+            if w and not (d or h or m or sec):
+                return ["DURATION:P%dW" % w]
+            d += 7 * w
+            t = ("%dH" % h if h else "") + ("%dM" % m if m else "") + ("%dS" % sec if sec else "")
+            return ["DURATION:P" + ("%dD" % d if d else "") + ("T" + t if t else "")]
+        return ["DURATION:PT%dS" % s]
 
     def ical_event(self):
         l = ["BEGIN:VEVENT", "UID:%s" % self.uid, "SUMMARY:echo %s" % self.uid, "DTSTART:%s" % stamp(self.occ[0])]
@@ -43,7 +60,7 @@ class TaskSpec:
             else:
                 l.append("RRULE:FREQ=SECONDLY;INTERVAL=%d;COUNT=%d" % (step, len(self.occ)))
         if self.dur:
-            l.append("DURATION:PT%dS" % (self.dur // 1000))
+            l += self.dur_lines()
         if self.max_simul is not None:
             l.append("X-ECHS-MAX-SIMUL:%d" % self.max_simul)
         if self.owner is not None:
@@ -252,7 +269,8 @@ def gen_history(rng, knobs):
                     ms = rng.choice(knobs.get("limits", [None, None, 0, 1, 1, 2, 3]))
                     dur = rng.choice(knobs.get("durs", [0, 0, 5000, 61000]))
                     owner = rng.choice([None] * 8 + [peer, rng.choice(USERS)])
-                    items.append(TaskSpec(rng.choice(uids), occ, ms, dur, owner, use_rdate=rng.random() < 0.3))
+                    items.append(TaskSpec(rng.choice(uids), occ, ms, dur, owner, use_rdate=rng.random() < 0.3,
+                                          dur_form=rng.choice(knobs.get("dur_forms", [None]))))
             op, its = request(peer, items)
             ops.append(op); acts.append(("A", peer, its))
         elif r < 0.62:
